@@ -1,5 +1,275 @@
 package main
 
-import "go/ast"
+import (
+	"fmt"
+	"go/ast"
+	"go/token"
+	"go/types"
+	"strings"
+)
 
-func (in *instr) schedHooks(fd *ast.FuncDecl) {}
+func (in *instr) typeOf(e ast.Expr) types.Type {
+	if tv, ok := in.pkg.TypesInfo.Types[e]; ok {
+		return tv.Type
+	}
+	return nil
+}
+
+func namedIs(t types.Type, pkg, name string) (isPtr bool, ok bool) {
+	if t == nil {
+		return false, false
+	}
+	if p, isP := t.(*types.Pointer); isP {
+		t = p.Elem()
+		isPtr = true
+	}
+	n, isN := t.(*types.Named)
+	if !isN || n.Obj() == nil || n.Obj().Pkg() == nil {
+		return false, false
+	}
+	return isPtr, n.Obj().Pkg().Path() == pkg && n.Obj().Name() == name
+}
+
+// pkgLevelMap reports whether id denotes a package-level variable of map type in this module.
+func (in *instr) pkgLevelMap(id *ast.Ident) (string, bool) {
+	obj := in.pkg.TypesInfo.Uses[id]
+	v, ok := obj.(*types.Var)
+	if !ok || v.Pkg() == nil || v.Parent() != v.Pkg().Scope() {
+		return "", false
+	}
+	if _, isMap := v.Type().Underlying().(*types.Map); !isMap {
+		return "", false
+	}
+	if !strings.HasPrefix(v.Pkg().Path(), "github.com/Syuparn/pangaea") {
+		return "", false
+	}
+	short := v.Pkg().Path()[strings.LastIndex(v.Pkg().Path(), "/")+1:]
+	return short + "." + v.Name(), true
+}
+
+func (in *instr) schedHooks(fd *ast.FuncDecl) {
+	// entry of evaluator.Eval: scheduling point and fuel
+	if in.pkg.PkgPath == "github.com/Syuparn/pangaea/evaluator" && fd.Name.Name == "Eval" && fd.Recv == nil {
+		p := in.off(fd.Body.Lbrace) + 1
+		in.edits = append(in.edits, edit{p, p, " verifseam.YieldEval();"})
+		in.add("yield", "evaluator.Eval", fd.Pos(), "")
+	}
+	// symbol-table operations: wrap for history recording
+	if in.pkg.PkgPath == "github.com/Syuparn/pangaea/object" && fd.Recv == nil {
+		in.wrapSymtab(fd)
+	}
+
+	// statements directly inside blocks, for Access hooks
+	var visitBlock func(list []ast.Stmt)
+	accessDone := map[ast.Stmt]bool{}
+	hookStmt := func(s ast.Stmt) {
+		if accessDone[s] {
+			return
+		}
+		// does the statement (excluding nested blocks, handled on their own) touch a package-level map?
+		type acc struct {
+			name  string
+			write bool
+		}
+		var found []acc
+		var walk func(n ast.Node, lhs bool)
+		walk = func(n ast.Node, lhs bool) {
+			ast.Inspect(n, func(x ast.Node) bool {
+				switch y := x.(type) {
+				case *ast.BlockStmt:
+					return x == n // do not descend into nested blocks
+				case *ast.FuncLit:
+					return false
+				case *ast.AssignStmt:
+					for _, l := range y.Lhs {
+						if ix, ok := l.(*ast.IndexExpr); ok {
+							if id, ok := ix.X.(*ast.Ident); ok {
+								if name, ok := in.pkgLevelMap(id); ok {
+									found = append(found, acc{name, true})
+								}
+							}
+						}
+					}
+				case *ast.CallExpr:
+					if f, ok := y.Fun.(*ast.Ident); ok && f.Name == "delete" && len(y.Args) > 0 {
+						if id, ok := y.Args[0].(*ast.Ident); ok {
+							if name, ok := in.pkgLevelMap(id); ok {
+								found = append(found, acc{name, true})
+							}
+						}
+					}
+				case *ast.Ident:
+					if name, ok := in.pkgLevelMap(y); ok {
+						found = append(found, acc{name, false})
+					}
+				}
+				return true
+			})
+		}
+		walk(s, false)
+		if len(found) == 0 {
+			return
+		}
+		accessDone[s] = true
+		seen := map[string]bool{}
+		text := ""
+		for _, a := range found {
+			// a write subsumes the read recorded for the same identifier
+			w := false
+			for _, b := range found {
+				if b.name == a.name && b.write {
+					w = true
+				}
+			}
+			if seen[a.name] {
+				continue
+			}
+			seen[a.name] = true
+			site := in.siteName("access")
+			in.add("access", site, s.Pos(), a.name)
+			text += fmt.Sprintf("verifseam.Access(%q, %q, %v); ", a.name, site, w)
+		}
+		p := in.off(s.Pos())
+		in.edits = append(in.edits, edit{p, p, text})
+	}
+	visitBlock = func(list []ast.Stmt) {
+		for _, s := range list {
+			switch s.(type) {
+			case *ast.BlockStmt, *ast.IfStmt, *ast.ForStmt, *ast.RangeStmt, *ast.SwitchStmt, *ast.TypeSwitchStmt, *ast.SelectStmt, *ast.LabeledStmt:
+				// compound statements: hook their init/cond part as a whole only if it has no body of its own touching maps
+			}
+			switch st := s.(type) {
+			case *ast.DeferStmt, *ast.GoStmt:
+				_ = st
+				continue
+			}
+			hookStmt(s)
+		}
+	}
+	ast.Inspect(fd.Body, func(n ast.Node) bool {
+		switch b := n.(type) {
+		case *ast.BlockStmt:
+			visitBlock(b.List)
+		case *ast.CaseClause:
+			visitBlock(b.Body)
+		case *ast.CommClause:
+			visitBlock(b.Body)
+		}
+		return true
+	})
+
+	ast.Inspect(fd.Body, func(n ast.Node) bool {
+		switch s := n.(type) {
+		case *ast.GoStmt:
+			site := in.siteName("go")
+			in.add("go", site, s.Pos(), "")
+			call := s.Call
+			start, end := in.off(s.Pos()), in.off(s.End())
+			if fl, ok := call.Fun.(*ast.FuncLit); ok && len(call.Args) == 0 {
+				// go func() {...}()  ->  verifseam.Go(site, func() {...})
+				in.edits = append(in.edits, edit{start, in.off(fl.Pos()), fmt.Sprintf("verifseam.Go(%q, ", site)})
+				in.edits = append(in.edits, edit{in.off(fl.End()), end, ")"})
+			} else {
+				in.edits = append(in.edits, edit{start, in.off(call.Pos()), fmt.Sprintf("verifseam.Go(%q, func() { ", site)})
+				in.edits = append(in.edits, edit{end, end, " })"})
+			}
+		case *ast.SendStmt:
+			if _, ok := in.typeOf(s.Chan).Underlying().(*types.Chan); ok {
+				site := in.siteName("send")
+				in.add("send", site, s.Pos(), "")
+				in.edits = append(in.edits, edit{in.off(s.Pos()), in.off(s.Chan.Pos()), fmt.Sprintf("verifseam.Send(%q, ", site)})
+				in.edits = append(in.edits, edit{in.off(s.Chan.End()), in.off(s.Value.Pos()), ", "})
+				in.edits = append(in.edits, edit{in.off(s.End()), in.off(s.End()), ")"})
+			}
+		case *ast.UnaryExpr:
+			if s.Op == token.ARROW {
+				site := in.siteName("recv")
+				in.add("recv", site, s.Pos(), "")
+				in.edits = append(in.edits, edit{in.off(s.Pos()), in.off(s.X.Pos()), fmt.Sprintf("verifseam.Recv(%q, ", site)})
+				in.edits = append(in.edits, edit{in.off(s.End()), in.off(s.End()), ")"})
+			}
+		case *ast.CallExpr:
+			sel, ok := s.Fun.(*ast.SelectorExpr)
+			if !ok || len(s.Args) != 0 {
+				return true
+			}
+			t := in.typeOf(sel.X)
+			var fn string
+			isPtr := false
+			if p, ok := namedIs(t, "sync", "RWMutex"); ok {
+				isPtr = p
+				switch sel.Sel.Name {
+				case "Lock":
+					fn = "RWLock"
+				case "Unlock":
+					fn = "RWUnlock"
+				case "RLock":
+					fn = "RWRLock"
+				case "RUnlock":
+					fn = "RWRUnlock"
+				}
+			} else if p, ok := namedIs(t, "sync", "Mutex"); ok {
+				isPtr = p
+				switch sel.Sel.Name {
+				case "Lock":
+					fn = "MuLock"
+				case "Unlock":
+					fn = "MuUnlock"
+				}
+			}
+			if fn == "" {
+				return true
+			}
+			in.add("lock", in.siteName("lock"), s.Pos(), fn)
+			amp := "&"
+			if isPtr {
+				amp = ""
+			}
+			in.edits = append(in.edits, edit{in.off(s.Pos()), in.off(sel.X.Pos()), "verifseam." + fn + "(" + amp})
+			in.edits = append(in.edits, edit{in.off(sel.X.End()), in.off(s.End()), ")"})
+		case *ast.SelectStmt:
+			in.add("select-unmodelled", in.siteName("select"), s.Pos(), "")
+		}
+		return true
+	})
+}
+
+// wrapSymtab renames object.GetSymHash / object.SymHash2Str and adds recording wrappers.
+func (in *instr) wrapSymtab(fd *ast.FuncDecl) {
+	switch fd.Name.Name {
+	case "GetSymHash":
+		if fd.Type.Params.NumFields() != 1 || fd.Type.Results.NumFields() != 1 {
+			return
+		}
+		in.edits = append(in.edits, edit{in.off(fd.Name.Pos()), in.off(fd.Name.End()), "verifseamOrigGetSymHash"})
+		in.edits = append(in.edits, edit{in.off(fd.End()), in.off(fd.End()), `
+
+func GetSymHash(str string) SymHash {
+	verifseamI := verifseam.OpBegin(0, str, 0)
+	h := verifseamOrigGetSymHash(str)
+	verifseam.OpEnd(verifseamI, str, uint64(h), true)
+	return h
+}
+`})
+		in.add("wrap", "object.GetSymHash", fd.Pos(), "")
+	case "SymHash2Str":
+		if fd.Type.Params.NumFields() != 1 || fd.Type.Results.NumFields() != 2 {
+			return
+		}
+		in.edits = append(in.edits, edit{in.off(fd.Name.Pos()), in.off(fd.Name.End()), "verifseamOrigSymHash2Str"})
+		in.edits = append(in.edits, edit{in.off(fd.End()), in.off(fd.End()), `
+
+func SymHash2Str(h SymHash) (PanObject, bool) {
+	verifseamI := verifseam.OpBegin(1, "", uint64(h))
+	o, ok := verifseamOrigSymHash2Str(h)
+	s := ""
+	if ps, isStr := o.(*PanStr); isStr && ps != nil {
+		s = ps.Value
+	}
+	verifseam.OpEnd(verifseamI, s, uint64(h), ok)
+	return o, ok
+}
+`})
+		in.add("wrap", "object.SymHash2Str", fd.Pos(), "")
+	}
+}
